@@ -158,6 +158,29 @@ def main():
         if len(ck.samples) < 6:
             ck.samples.append({"text": r["mtext"], "quantiles": nq, "block_size_histogram": dict(sorted(r["hist"].items())[:8])})
     ck.count("objects", total_objects)
+    # ---- blocks whose mass does not grow by one repeat unit per step: comb units that attach HEAVY end groups during growth through a transition
+    # list (they belong to the block's mass: the block stops at the first attachment that exceeds the drawn target); decided by the stop-rule
+    # oracle of C07 on real runs with free draws of the declared distribution
+    import c07
+    comb = []
+    for _ in range(6 if quick else 60):
+        w_side, w_end = rnd.choice(["1", "0.5", "3"]), rnd.choice(["1", "2", "5"])
+        side_end, cap = rnd.choice(["Br", "Cl", "CS", "I"]), rnd.choice(["F", "O", "CC"])
+        lo = rnd.choice([60, 150])
+        fam = rnd.choice([f"uniform({lo}, {lo + rnd.choice([200, 500])})", f"gauss({lo + 200}, {rnd.choice([20, 80])})", f"schulz_zimm({2 * lo + 300}, {lo + 200})"])
+        comb.append(f"C{{[>] [<]CC([>2|0 0 0 {w_end} 0|])C[>|{w_side}|]; [<2]{side_end}, [<]{cap} [<]}}|{fam}|N")
+    ccases = []
+    for t in comb:
+        try:
+            ccases.append(genrun.parse_case(t, "comb"))
+        except Exception as exc:
+            ck.note(f"comb instance rejected: {t}: {type(exc).__name__}: {exc}")
+    if ccases:
+        crecs = genrun.run_batch(ck, ccases, seeds_per_case=4 if quick else 8, what=("struct", "mass"), seed_base=ck.seed * 7919 + 9,
+                                 oracles=[c07.oracle_c07], forced=lambda c: ("free", 1), runner=c07.runner)
+        ck.count("comb-blocks", len(crecs))
+        for rec in crecs:
+            ck.distinct.add(rec["case"].text)
     ck.rule = ("one case = one generated block: (family x parameter region x unit mass, one or two blocks per molecule) x a grid of quantiles fed through a scripted "
                "generator into the real generation; the block size must be the one the documented law (closed-form quantile) assigns; distinct = molecules; "
                "no statistics are used in the quick tier")
